@@ -47,6 +47,8 @@ type Profile struct {
 	PZeroMsgSize                                                                 float64 // MaxSizePerMsg=0 together with MaxCommittedSizePerReady=0
 	PUniform                                                                     float64 // group-wide PreVote/CheckQuorum/ElectionTick
 	PCrashUndurableTerm                                                          float64 // crash a leader/candidate whose current term is not durable yet
+	PLateType                                                                    float64 // per run: one message type is systematically delayed by election timeouts
+	RemoveBias                                                                   float64 // probability that a membership change removes a voter other than the proposer
 	ShortElection                                                                bool
 	AggressiveCompaction                                                         bool
 	HeavyProposals                                                               bool
@@ -65,7 +67,7 @@ func DefaultProfile() Profile {
 		WCrash:     3, WPartition: 2, WHealF: 2, WClockStall: 0.7, WClockJump: 0.7, WSlowNode: 0.7, WStallThread: 0.7,
 		FaultRate: 0.05,
 		PDrop:     0.03, PDup: 0.03, PLate: 0.02,
-		PTargetedCrash: 0.03, PCheckpointRestart: 0.3, PUniform: 0.75, PZeroMsgSize: 0.01,
+		PTargetedCrash: 0.03, PCheckpointRestart: 0.3, PUniform: 0.75, PZeroMsgSize: 0.01, PLateType: 0.3,
 	}
 }
 
@@ -155,6 +157,8 @@ type Gen struct {
 	ckptRestart float64
 	clientRate  float64
 	faultRate   float64
+	lateType    pb.MessageType
+	lateTypeP   float64
 }
 
 func pick(rng *rand.Rand, ws []float64) int {
@@ -281,8 +285,16 @@ func NewGen(runSeed uint64, p Profile, opt Options) *Gen {
 	g.ckptRestart = p.PCheckpointRestart
 	g.clientRate = p.ClientRate * (0.3 + 1.4*rng.Float64())
 	g.faultRate = p.FaultRate * (0.2 + 1.8*rng.Float64())
+	g.lateType = -1
+	if chance(rng, p.PLateType) {
+		types := []pb.MessageType{pb.MsgTimeoutNow, pb.MsgVote, pb.MsgVoteResp, pb.MsgPreVote, pb.MsgPreVoteResp, pb.MsgApp, pb.MsgAppResp,
+			pb.MsgSnap, pb.MsgHeartbeat, pb.MsgHeartbeatResp, pb.MsgReadIndex, pb.MsgReadIndexResp, pb.MsgProp, pb.MsgTransferLeader}
+		g.lateType = types[rng.IntN(len(types))]
+		g.lateTypeP = 0.2 + 0.7*rng.Float64()
+	}
 	if g.faultFree {
 		g.dropP, g.dupP, g.lateP, g.faultRate = 0, 0, 0, 0
+		g.lateType = -1
 	}
 	switch g.onlyFault {
 	case "crash", "partition", "clock", "slow":
@@ -372,6 +384,10 @@ func (g *Gen) after() {
 			continue
 		}
 		d := g.netDelay()
+		if f.Type == g.lateType && chance(g.rng, g.lateTypeP) {
+			d = int64((0.3 + 2.5*g.rng.Float64()) * float64(g.maxET) * tickUnit)
+			c.stats.fault("msg_type_delayed")
+		}
 		if chance(g.rng, g.dupP) {
 			g.schedule(&event{at: g.now + d, kind: evDeliver, f: f, keep: true})
 			g.schedule(&event{at: g.now + d + g.netDelay(), kind: evDeliver, f: f})
@@ -791,6 +807,21 @@ func (g *Gen) confChange() {
 		return chance(g.rng, 0.3)
 	})
 	f := opts[g.rng.IntN(len(opts))]
+	if chance(g.rng, g.p.RemoveBias) && len(voters) > 1 && !cur.Joint() {
+		f = func() bool {
+			var others []uint64
+			for _, v := range voters {
+				if v != id {
+					others = append(others, v)
+				}
+			}
+			if len(others) == 0 {
+				return false
+			}
+			spec = CCSpec{Changes: []CCSingle{one(pb.ConfChangeRemoveNode, pickOf(others))}}
+			return true
+		}
+	}
 	if !f() {
 		return
 	}
@@ -807,7 +838,23 @@ func (g *Gen) confChange() {
 	}
 	g.confChanges++
 	g.nextCtx++
-	g.do(Action{K: AConfChange, N: id, CC: &spec, I: g.nextCtx})
+	act := Action{K: AConfChange, N: id, CC: &spec, I: g.nextCtx}
+	if chance(g.rng, 0.12) {
+		// a second change travelling in the same proposal message
+		var spec2 CCSpec
+		switch {
+		case len(outsiders) > 0 && chance(g.rng, 0.6):
+			spec2.Changes = []CCSingle{one(pb.ConfChangeAddLearnerNode, pickOf(outsiders))}
+		case len(learners) > 0:
+			spec2.Changes = []CCSingle{one(pb.ConfChangeAddNode, pickOf(learners))}
+		default:
+			spec2.Changes = []CCSingle{one(pb.ConfChangeUpdateNode, pickOf(c.ids))}
+		}
+		spec2.V1 = chance(g.rng, 0.5)
+		g.nextCtx++
+		act.CC2, act.J = &spec2, g.nextCtx
+	}
+	g.do(act)
 }
 
 func (g *Gen) crash(n *Node, targeted bool) {
